@@ -404,6 +404,31 @@ def run_prio(ctx: Ctx) -> RuleResult:
     res.ob('%s %s' % (xs.loc(), xs.qual), 'with the dynamic lexers, token nodes carry the terminal priority', ok)
     if not ok:
         res.finding(xs, xs.node, 'the dynamic scanner overrides the terminal priority of token nodes', construct='prio:dynamic-term')
+    # the initial priority of a symbol node is the identity of the aggregation (max -> -inf, min -> +inf): a node the pass never
+    # reaches (the cyclic alternative, discarded on retreat) must lose against every real derivation
+    sni = repo.cls('lark.parsers.earley_forest:SymbolNode').methods['__init__']
+    inits = [a.value for a in sni.body_nodes() if isinstance(a, ast.Assign) and len(a.targets) == 1 and norm(a.targets[0]).endswith('.priority')]
+    want_init = "float('-inf')" if (agg and agg[0].func.id == 'max') else "float('inf')"
+    ok = len(inits) == 1 and norm(inits[0]) in (want_init, want_init.replace("'", '"'), '-math.inf' if 'max' in want_init or '-' in want_init else 'math.inf')
+    res.ob('%s %s' % (sni.loc(), sni.qual), 'a symbol node starts with the identity of the %s aggregation (%s)' % (agg[0].func.id if agg else '?', want_init), ok)
+    if not ok:
+        res.finding(sni, sni.node, 'SymbolNode.priority starts at %s, not at %s: a node whose priority is never computed (cycle retreat) can outrank '
+                    'real derivations under the %s aggregation' % ([norm(x) for x in inits], want_init, agg[0].func.id if agg else '?'),
+                    construct='prio:init-identity')
+    # user edits of the terminals (edit_terminals) come before the priority mode rewrites priorities: what the callback sets is
+    # inverted / neutralised like everything else
+    li = repo.func('lark.lark:Lark.__init__')
+    from ..cfg import cfg_of
+    g_ = cfg_of(li.node)
+    edits = [enclosing_stmt(c) for c in li.body_nodes() if isinstance(c, ast.Call) and norm(c.func).endswith('.edit_terminals')]
+    rewrites = [a for a in li.body_nodes() if isinstance(a, ast.Assign) and len(a.targets) == 1 and norm(a.targets[0]).endswith('.priority')
+                and any(isinstance(l_, ast.For) and norm(l_.iter).endswith('.terminals') for l_ in ancestors(a))]
+    ok = bool(edits) and bool(rewrites) and all(e_.lineno < r_.lineno for e_ in edits for r_ in rewrites) and \
+        all(g_.node_of(r_) in g_.reachable([g_.node_of(e_)]) for e_ in edits for r_ in rewrites)
+    res.ob('%s %s' % (li.loc(), li.qual), 'edit_terminals runs before the priority mode rewrites terminal priorities', ok)
+    if not ok:
+        res.finding(li, edits[0] if edits else li.node, 'edit_terminals runs after the priority mode (invert / None) has rewritten the terminal '
+                    'priorities: priorities set by the callback escape the inversion / neutralisation', construct='prio:edit-order')
     # the prioritizer is enabled when any priority is set
     pi = repo.func('lark.parsers.earley:Parser.__init__')
     ok = has_pat(pi.body_nodes(), '$r.options.priority is not None') and (has_pat(pi.body_nodes(), 'if $t.priority:\n    self.forest_sum_visitor = ForestSumVisitor\n    break')
